@@ -17,6 +17,10 @@ func VerifSetSeed(f func(int32) int32) { simhook.SeedFunc = f }
 // opening sockets (simulation harness only).
 func VerifSetListeners(f func([]net.Listener) []net.Listener) { simhook.ListenersFunc = f }
 
+// VerifSetReadWindow replaces the sender's file read window size, a tuning
+// knob (simulation harness only).
+func VerifSetReadWindow(f func(blockLength, v int32) int32) { simhook.ReadWindowFunc = f }
+
 // VerifRelaxLandlock makes the daemon's landlock restriction a no-op for the
 // whole file system: landlock is process-wide and irreversible, and the
 // simulation runs many daemons in one worker process.
